@@ -411,6 +411,9 @@ CONSTRUCTED = [
     # two processes initialise the same new job: every schedule with up to THREE pre-emptions
     {"start": "empty", "mode": "bounded", "preemptions": 3, "cap": 6000, "schedules": [[]], "actors": [[{"o": "init", "j": 0}], [{"o": "init", "j": 0}]]},
     {"start": "noworkspace", "mode": "bounded", "preemptions": 3, "cap": 6000, "schedules": [[]], "actors": [[{"o": "init", "j": 2}], [{"o": "read", "j": 2}]]},
+    # one process is inside init() of a new job while the other writes that job's document and initialises it
+    {"start": "empty", "mode": "bounded", "schedules": [[]], "actors": [[{"o": "init", "j": 1}], [{"o": "write", "j": 1, "k": "x", "v": 1}, {"o": "init", "j": 1}]]},
+    {"start": "empty", "mode": "random", "schedules": [[0, 1, 2], [1, 1, 0, 2], [2, 0, 0, 1, 1]], "actors": [[{"o": "init", "j": 1}], [{"o": "write", "j": 1, "k": "x", "v": 1}], [{"o": "init", "j": 1}, {"o": "read", "j": 1}]]},
     # one long-lived Project object counts repeatedly while another process creates jobs
     {"start": "empty", "mode": "bounded", "schedules": [[]], "actors": [[{"o": "len"}, {"o": "len"}, {"o": "len"}], [{"o": "init", "j": 0}]]},
     {"start": "populated", "mode": "bounded", "schedules": [[]], "actors": [[{"o": "len"}, {"o": "len"}], [{"o": "init", "j": 2}, {"o": "len"}]]},
